@@ -379,8 +379,14 @@ class Consumer(object):
             self._shuttingdown = False  # Shutdown complete
             d.errback(failure)
 
+        run = self._run
+
         def _commit_and_stop(result):
             """Commit the current offsets (if needed) and stop the consumer"""
+            if self._run != run:
+                # The processor's deferred we waited for fired only after
+                # stop() had ended the run (and this shutdown with it)
+                return result
             if self._stopping:  # stop() was called while we waited: give up
                 return _handle_shutdown_commit_failure(Failure(CancelledError()))
             if not self.consumer_group:  # No consumer group, no committing
@@ -465,6 +471,13 @@ class Consumer(object):
         # own, and never let the late result into a later run.
         self._run += 1
         self._request_d = None
+        if self._shutdown_d is not None:
+            # A graceful shutdown is still waiting for the processor, whose
+            # deferred did not fire when we cancelled it: the shutdown ends
+            # here, like one whose wait stop() did cut short
+            self._shutdown_d, shutdown_d = None, self._shutdown_d
+            self._shuttingdown = False
+            shutdown_d.errback(Failure(CancelledError()))
         # Keep track of state for debugging
         self._state = "stopped"
 
